@@ -9,8 +9,8 @@ each method branch by branch; the property theorems say they coincide with the l
 operations the property names (`filter`/`take`, stable sort, permutation, partition).
 `Store` puts them behind set names so that the in-place and the copying form of an
 operation can be told apart: a population of agents with mutable integer attributes, all
-registered with one model and strongly held (weak references play no role here, see C04),
-and the AgentSets the program has made so far.
+registered with one model and held by the program until `kill` (death *during* an operation
+is C04's subject), and the AgentSets the program has made so far.
 
 `select(at_most=<float f ≤ 1.0>)`: the code computes `int(len(self) * f)` on IEEE doubles.
 The model takes the resulting *count* (`AtMost.count k`); the driver computes `k` with
@@ -155,6 +155,7 @@ structure Store where
   pop : List Agent              -- index = id
   sets : List (List Nat)        -- AgentSets made so far (member ids in order)
   rng : Rng                     -- model.random, shared by every set
+  dead : List Nat := []         -- agents that have died (removed from the model, no reference left in the program)
 deriving Repr, DecidableEq, Inhabited
 
 inductive Err where | attr | key | index | value
@@ -310,6 +311,12 @@ def remove (st : Store) (s : Nat) (a : Nat) : Except Err Store :=
 
 def contains (st : Store) (s : Nat) (a : Nat) : Bool := (st.get s).contains a
 def len (st : Store) (s : Nat) : Nat := (st.get s).length
+
+/-- `agent.remove()` followed by the program dropping its last reference: the agent dies, and — every
+    AgentSet holding only weak references — it is gone from *every* set at once (original and derived alike);
+    the other members keep their order (`WeakKeyDictionary`'s removal callback deletes the one key) -/
+def kill (st : Store) (a : Nat) : Store :=
+  { st with sets := st.sets.map (fun l => l.erase a), dead := a :: st.dead }
 
 /-! ### set algebra, comparisons, `pop` / `clear`, `index` / `count` / `reversed` on the store -/
 
